@@ -187,7 +187,9 @@ def callNative (f : Native) (args : List Val) (this : Option Val) : EM NativeRes
       match toJValTop h (args.getD 0 .unknown) with
       | .oof => oof
       | .error m => return .error ("error creating JSON: " ++ m)
-      | .ok j => return .ok (some (.str (Json.marshalIndent j) none))
+      | .ok j =>                      -- runtime.go:152-155: `json.MarshalIndent`'s own error, returned as it is
+        return (if Json.tooDeep j then .error "exceeded max depth"
+                else .ok (some (.str (Json.marshalIndent j) none)))
   | .num =>
     match checkArgCount args 1 with
     | .error m => return .error m
